@@ -7,6 +7,7 @@ package main
 import (
 	"bytes"
 	"fmt"
+	"io"
 	"io/ioutil"
 	"net"
 	"os"
@@ -22,6 +23,7 @@ import (
 	"github.com/q191201771/lal/pkg/logic"
 	"github.com/q191201771/lal/pkg/remux"
 	"github.com/q191201771/lal/pkg/rtmp"
+	"github.com/q191201771/lal/pkg/rtprtcp"
 	"github.com/q191201771/lal/pkg/rtsp"
 	"github.com/q191201771/lal/pkg/sdp"
 )
@@ -111,7 +113,227 @@ type hookCtx struct {
 func (h *hookCtx) OnMsg(msg base.RtmpMsg) { h.r.mu.Lock(); h.e.msgs++; h.r.mu.Unlock() }
 func (h *hookCtx) OnStop()                { h.r.mu.Lock(); h.e.stops++; h.r.mu.Unlock() }
 
+// parkConn is the client side of an RTSP command connection: requests are fed
+// one step at a time, and the harness can wait until the server's command loop
+// has consumed everything and is blocked in Read again.
+type parkConn struct {
+	mu      sync.Mutex
+	in      []byte
+	writes  [][]byte
+	parked  bool
+	closed  bool
+	wake    chan struct{}
+	closeCh chan struct{}
+}
+
+func newParkConn() *parkConn {
+	return &parkConn{wake: make(chan struct{}, 1), closeCh: make(chan struct{})}
+}
+
+func (c *parkConn) Read(b []byte) (int, error) {
+	for {
+		c.mu.Lock()
+		if len(c.in) > 0 {
+			n := copy(b, c.in)
+			c.in = c.in[n:]
+			c.mu.Unlock()
+			return n, nil
+		}
+		if c.closed {
+			c.mu.Unlock()
+			return 0, io.EOF
+		}
+		c.parked = true
+		c.mu.Unlock()
+		select {
+		case <-c.wake:
+		case <-c.closeCh:
+		}
+	}
+}
+
+func (c *parkConn) feed(b []byte) {
+	c.mu.Lock()
+	c.in = append(c.in, b...)
+	c.parked = false
+	c.mu.Unlock()
+	select {
+	case c.wake <- struct{}{}:
+	default:
+	}
+}
+
+// waitParked: the command loop has read all input and waits for more (or the connection was closed by it)
+func (c *parkConn) waitParked() bool {
+	deadline := time.Now().Add(20 * time.Second)
+	for time.Now().Before(deadline) {
+		c.mu.Lock()
+		ok := (c.parked && len(c.in) == 0) || c.closed
+		c.mu.Unlock()
+		if ok {
+			return true
+		}
+		time.Sleep(50 * time.Microsecond)
+	}
+	return false
+}
+
+func (c *parkConn) Write(b []byte) (int, error) {
+	c.mu.Lock()
+	defer c.mu.Unlock()
+	if c.closed {
+		return 0, io.ErrClosedPipe
+	}
+	c.writes = append(c.writes, append([]byte{}, b...))
+	return len(b), nil
+}
+
+func (c *parkConn) Close() error {
+	c.mu.Lock()
+	defer c.mu.Unlock()
+	if !c.closed {
+		c.closed = true
+		close(c.closeCh)
+	}
+	return nil
+}
+
+func (c *parkConn) all() []byte {
+	c.mu.Lock()
+	defer c.mu.Unlock()
+	var out []byte
+	for _, w := range c.writes {
+		out = append(out, w...)
+	}
+	return out
+}
+
+func (c *parkConn) isClosed() bool {
+	c.mu.Lock()
+	defer c.mu.Unlock()
+	return c.closed
+}
+
+func (c *parkConn) LocalAddr() net.Addr                { return fakeAddr{} }
+func (c *parkConn) RemoteAddr() net.Addr               { return fakeAddr{} }
+func (c *parkConn) SetDeadline(t time.Time) error      { return nil }
+func (c *parkConn) SetReadDeadline(t time.Time) error  { return nil }
+func (c *parkConn) SetWriteDeadline(t time.Time) error { return nil }
+
+// fanRtspObs is what logic.ServerManager is to a real RTSP command session: it routes DESCRIBE / PLAY to the group
+type fanRtspObs struct {
+	group *logic.Group
+	c     *fanConsumer
+}
+
+func (o *fanRtspObs) OnNewRtspPubSession(s *rtsp.PubSession) error { return base.ErrRtsp }
+func (o *fanRtspObs) OnNewRtspSubSessionDescribe(s *rtsp.SubSession) (bool, []byte) {
+	o.c.sub = s
+	return o.group.HandleNewRtspSubSessionDescribe(s)
+}
+func (o *fanRtspObs) OnNewRtspSubSessionPlay(s *rtsp.SubSession) error {
+	o.group.HandleNewRtspSubSessionPlay(s)
+	return nil
+}
+
+// fanSdp: the SDP every RTSP history announces: video PT 96 (H264 / H265 / a codec lal does not know), audio PT 97
+func fanSdp(v string, uniq string) []byte {
+	enc := "VP8"
+	switch v {
+	case "a":
+		enc = "H264"
+	case "h":
+		enc = "H265"
+	}
+	return []byte("v=0\r\no=- 0 0 IN IP4 127.0.0.1\r\ns=" + uniq + "\r\nc=IN IP4 127.0.0.1\r\nt=0 0\r\n" +
+		"m=video 0 RTP/AVP 96\r\na=rtpmap:96 " + enc + "/90000\r\na=control:streamid=0\r\n" +
+		"m=audio 0 RTP/AVP 97\r\na=rtpmap:97 MPEG4-GENERIC/44100/2\r\na=fmtp:97 profile-level-id=1;mode=AAC-hbr;sizelength=13;indexlength=3;indexdeltalength=3; config=1210\r\na=control:streamid=1\r\n")
+}
+
+// labelRtspStream parses what an RTSP subscriber's command connection received: RTSP
+// responses (the DESCRIBE response is labelled by the SDP it carries; SETUP / PLAY
+// responses must be 200 and are not shown) and interleaved RTP packets.
+func labelRtspStream(b []byte, sdps [][]byte, pkts [][]byte) string {
+	var out []string
+	for len(b) > 0 {
+		if b[0] == '$' {
+			if len(b) < 4 || len(b) < 4+(int(b[2])<<8|int(b[3])) {
+				out = append(out, "?short-interleaved")
+				break
+			}
+			n := int(b[2])<<8 | int(b[3])
+			payload := b[4 : 4+n]
+			name := "?pkt"
+			for j, p := range pkts {
+				if bytes.Equal(p, payload) {
+					want := -1
+					if len(p) >= 2 {
+						switch p[1] & 0x7f {
+						case 96:
+							want = 0
+						case 97:
+							want = 2
+						}
+					}
+					if int(b[1]) == want {
+						name = fmt.Sprintf("p%d", j)
+					} else {
+						name = fmt.Sprintf("?chan%d-p%d", b[1], j)
+					}
+					break
+				}
+			}
+			out = append(out, name)
+			b = b[4+n:]
+			continue
+		}
+		i := bytes.Index(b, []byte("\r\n\r\n"))
+		if i < 0 {
+			rest := b
+			if len(rest) > 24 {
+				rest = rest[:24]
+			}
+			out = append(out, "?"+hexOf(rest))
+			break
+		}
+		head := string(b[:i])
+		b = b[i+4:]
+		if !strings.HasPrefix(head, "RTSP/1.0 200 OK\r\n") {
+			out = append(out, "?status:"+strings.SplitN(head, "\r\n", 2)[0])
+			continue
+		}
+		cl := -1
+		for _, l := range strings.Split(head, "\r\n") {
+			if strings.HasPrefix(l, "Content-Length: ") {
+				cl = intTok(strings.TrimPrefix(l, "Content-Length: "))
+			}
+		}
+		if cl >= 0 {
+			if cl > len(b) {
+				out = append(out, "?short-body")
+				break
+			}
+			body := b[:cl]
+			b = b[cl:]
+			name := "?sdp"
+			for k, sd := range sdps {
+				if bytes.Equal(sd, body) {
+					name = fmt.Sprintf("d%d", k)
+				}
+			}
+			out = append(out, name)
+		}
+	}
+	if len(out) == 0 {
+		return "-"
+	}
+	return strings.Join(out, ",")
+}
+
 type fanConsumer struct {
+	pc   *parkConn
+	cmd  *rtsp.ServerCommandSession
+	sub  *rtsp.SubSession
 	broken bool
 	sdp    string
 	id   uint64
@@ -228,6 +450,7 @@ func runFanoutHistory(cfgTok, evTok string) string {
 	cfg.HttpflvConfig.SingleGopMaxFrameNum = kv["fm"]
 	cfg.HttptsConfig.GopNum = kv["tg"]
 	cfg.HttptsConfig.SingleGopMaxFrameNum = kv["tm"]
+	cfg.RtspConfig.OutWaitKeyFrameFlag = kv["rw"] != 0
 	var recDir string
 	if kv["rec"] != 0 {
 		d, err := ioutil.TempDir("", "lalprobe-rec-")
@@ -273,7 +496,7 @@ func runFanoutHistory(cfgTok, evTok string) string {
 	consumers := map[uint64]*fanConsumer{}
 	var order []uint64
 	var msgs []pubMsg
-	var tsBlobs, patBlobs, sdpBlobs [][]byte
+	var tsBlobs, patBlobs, sdpBlobs, rtpPkts [][]byte
 	pushAttached := false
 	wantOpened := 0
 	var pushSegments [][]base.RtmpMsg // one per input epoch
@@ -383,23 +606,63 @@ func runFanoutHistory(cfgTok, evTok string) string {
 		case "K":
 			group.Tick(1)
 		case "S":
+			if len(f) == 3 {
+				// a real SDP, parsed by lal as an RTSP publisher's ANNOUNCE would be
+				b := fanSdp(f[1], f[2])
+				ctx, err := sdp.ParseSdp2LogicContext(b)
+				if err != nil {
+					return "err-sdp"
+				}
+				sdpBlobs = append(sdpBlobs, b)
+				group.OnSdp(ctx)
+				for _, c := range consumers {
+					if c.pc != nil {
+						c.pc.waitParked()
+					}
+				}
+				break
+			}
 			b := bytesTok(f[1])
 			sdpBlobs = append(sdpBlobs, b)
 			group.OnSdp(sdp.LogicContext{RawSdp: b})
 		case "D":
+			// a real RTSP command session over a fake conn; DESCRIBE now, SETUP + PLAY at event Y
 			id := numTok(f[1])
 			if _, ok := consumers[id]; ok {
 				break
 			}
-			rs := rtsp.NewSubSession(base.UrlContext{}, nil)
-			_, raw := group.HandleNewRtspSubSessionDescribe(rs)
-			group.DelRtspSubSession(rs)
-			c := &fanConsumer{id: id, kind: 'd', conn: newFakeConn(nil), sdp: string(raw)}
+			c := &fanConsumer{id: id, kind: 'd', pc: newParkConn()}
+			old := rtsp.VerifC15SetCmdWriteChanSize(0)
+			c.cmd = rtsp.NewServerCommandSession(&fanRtspObs{group, c}, c.pc, rtsp.ServerAuthConfig{}, false, "")
+			rtsp.VerifC15SetCmdWriteChanSize(old)
+			go func() { _ = c.cmd.RunLoop() }()
+			c.pc.feed([]byte("DESCRIBE rtsp://127.0.0.1/live/s RTSP/1.0\r\nCSeq: 1\r\n\r\n"))
+			if !c.pc.waitParked() || c.sub == nil {
+				return "err-describe"
+			}
 			consumers[id] = c
 			order = append(order, id)
+		case "Y":
+			id := numTok(f[1])
+			c, ok := consumers[id]
+			if !ok || c.kind != 'd' || c.pc.isClosed() || c.sub.Stage.Load() != rtsp.SubSessionStageWriteSdp {
+				break // a client sends SETUP / PLAY only after it has the DESCRIBE response
+			}
+			c.pc.feed([]byte("SETUP rtsp://127.0.0.1/live/s/streamid=0 RTSP/1.0\r\nCSeq: 2\r\nTransport: RTP/AVP/TCP;unicast;interleaved=0-1\r\n\r\n" +
+				"SETUP rtsp://127.0.0.1/live/s/streamid=1 RTSP/1.0\r\nCSeq: 3\r\nTransport: RTP/AVP/TCP;unicast;interleaved=2-3\r\n\r\n" +
+				"PLAY rtsp://127.0.0.1/live/s RTSP/1.0\r\nCSeq: 4\r\n\r\n"))
+			if !c.pc.waitParked() || c.pc.isClosed() {
+				return "err-play"
+			}
+		case "R":
+			raw := bytesTok(f[1])
+			rtpPkts = append(rtpPkts, raw)
+			if pkt, err := rtprtcp.ParseRtpPacket(raw); err == nil {
+				group.OnRtpPacket(pkt)
+			}
 		case "B":
 			id := numTok(f[1])
-			if c, ok := consumers[id]; ok {
+			if c, ok := consumers[id]; ok && c.conn != nil {
 				c.conn.breakWrites()
 				c.broken = true
 			}
@@ -453,6 +716,11 @@ func runFanoutHistory(cfgTok, evTok string) string {
 				break
 			}
 			switch c.kind {
+			case 'd':
+				if !c.pc.isClosed() {
+					group.DelRtspSubSession(c.sub)
+					c.pc.Close()
+				}
 			case 'r':
 				group.DelRtmpSubSession(c.rs)
 			case 'f', 'w':
@@ -531,15 +799,7 @@ func runFanoutHistory(cfgTok, evTok string) string {
 		}
 		switch c.kind {
 		case 'd':
-			lab = "-"
-			if len(c.sdp) > 0 {
-				lab = "?sdp"
-				for k, b := range sdpBlobs {
-					if string(b) == c.sdp {
-						lab = fmt.Sprintf("d%d", k)
-					}
-				}
-			}
+			lab = labelRtspStream(c.pc.all(), sdpBlobs, rtpPkts)
 		case 'r':
 			lab = labelStream(c.conn.all(), rtmpUnits)
 		case 'f':
@@ -648,6 +908,10 @@ func runFanoutHistory(cfgTok, evTok string) string {
 		parts = append(parts, "hook="+strings.Join(hs, "/"))
 	}
 	for _, c := range consumers {
+		if c.pc != nil {
+			c.pc.Close()
+			continue
+		}
 		c.conn.Close()
 	}
 	if len(parts) == 0 {
